@@ -2559,6 +2559,8 @@ static bool upipe_h265f_find(struct upipe *upipe,
                 return false;
             }
             upipe_h265f->au_size++;
+            /* the scanner resumes after this octet: it must have seen it */
+            upipe_h265f->scan_context = (upipe_h265f->scan_context << 8) | junk;
 
             /* retrieve the octet preceding the start code, if it exists */
             if (p <= buffer + 6 &&
